@@ -299,7 +299,10 @@ impl DepthFirstSearch {
                             || self.solutions.len() >= self.max_solutions
                             || depth > 0
                         {
-                            return true; // keep changes
+                            // keep the changes, handing their undo log to the enclosing frame:
+                            // an outer candidate that fails later must be able to roll them back
+                            facts.commit_undo_frame();
+                            return true;
                         }
 
                         // Otherwise (max_solutions > 1 and not enough yet), rollback and continue
@@ -330,6 +333,7 @@ impl DepthFirstSearch {
                                         || self.solutions.len() >= self.max_solutions
                                         || depth > 0
                                     {
+                                        facts.commit_undo_frame();
                                         return true; // keep changes
                                     }
 
